@@ -777,6 +777,9 @@ impl<B: Flav> SliceWorld<B> {
                             if res.is_ok() != fits {
                                 rec.fail("C04", "s.store/result", line);
                             }
+                            if res.is_ok() && (parent.0 + addr) % ts != 0 {
+                                rec.fail("C06", "s.store/accepted-misaligned-address", line);
+                            }
                             if fits {
                                 self.expect_write(po + addr, &data[..ts]);
                             }
@@ -788,6 +791,9 @@ impl<B: Flav> SliceWorld<B> {
                             let res = with_atomic!(t, T => s.load::<T>(addr, Ordering::SeqCst).map(|v| ByteValued::as_slice(&v).to_vec()));
                             if res.is_ok() != fits {
                                 rec.fail("C04", "s.load/result", line);
+                            }
+                            if res.is_ok() && (parent.0 + addr) % ts != 0 {
+                                rec.fail("C06", "s.load/accepted-misaligned-address", line);
                             }
                             match res {
                                 Ok(v) => {
